@@ -4,6 +4,7 @@ import (
 	"context"
 	"crypto/sha256"
 	"fmt"
+	"runtime/debug"
 	"sort"
 	"strings"
 	"sync"
@@ -17,21 +18,39 @@ import (
 
 // Engine drives the real code: image building and bufcheck.Client.Breaking under parsed buf.yaml configs.
 type Engine struct {
-	ctx    context.Context
-	mu     sync.Mutex
-	cfgs   map[string]bufconfig.BreakingConfig
-	images sync.Map // sha256(text) -> *imgEntry
+	ctx  context.Context
+	mu   sync.Mutex
+	cfgs map[string]bufconfig.BreakingConfig
+
+	imu    sync.Mutex
+	images map[[32]byte]*imgEntry // sha256(text) -> entry; bounded LRU (an image retains ~1.5 MB)
+	tick   int64
 }
 
 type imgEntry struct {
 	once sync.Once
 	img  bufimage.Image
 	err  error
+	used int64
 }
+
+// imageCacheCap bounds the image cache; work lists are ordered so that items sharing an old schema are adjacent.
+const imageCacheCap = 128
 
 // NewEngine creates an engine.
 func NewEngine() *Engine {
-	return &Engine{ctx: context.Background(), cfgs: map[string]bufconfig.BreakingConfig{}}
+	return &Engine{ctx: context.Background(), cfgs: map[string]bufconfig.BreakingConfig{}, images: map[[32]byte]*imgEntry{}}
+}
+
+// TuneGC sets a laxer GC target (the real code allocates ~7 MB per Breaking call) under a soft
+// memory limit, and returns a function restoring the previous settings.
+func TuneGC() func() {
+	oldPercent := debug.SetGCPercent(300)
+	oldLimit := debug.SetMemoryLimit(4 << 30)
+	return func() {
+		debug.SetGCPercent(oldPercent)
+		debug.SetMemoryLimit(oldLimit)
+	}
 }
 
 // BreakingConfig parses (once) the buf.yaml of a Config with bufconfig.ReadBufYAMLFile.
@@ -62,8 +81,30 @@ func (e *Engine) Image(r *Rendered) (bufimage.Image, error) {
 // CachedImage builds the image once per distinct text (for schemas used as the old side many times).
 func (e *Engine) CachedImage(r *Rendered) (bufimage.Image, error) {
 	key := sha256.Sum256([]byte(r.Text()))
-	v, _ := e.images.LoadOrStore(key, &imgEntry{})
-	ent := v.(*imgEntry)
+	e.imu.Lock()
+	e.tick++
+	ent, ok := e.images[key]
+	if !ok {
+		if len(e.images) >= imageCacheCap {
+			// evict the least recently used quarter
+			type ku struct {
+				k [32]byte
+				u int64
+			}
+			all := make([]ku, 0, len(e.images))
+			for k, v := range e.images {
+				all = append(all, ku{k, v.used})
+			}
+			sort.Slice(all, func(i, j int) bool { return all[i].u < all[j].u })
+			for _, x := range all[:len(all)/4] {
+				delete(e.images, x.k)
+			}
+		}
+		ent = &imgEntry{}
+		e.images[key] = ent
+	}
+	ent.used = e.tick
+	e.imu.Unlock()
 	ent.once.Do(func() { ent.img, ent.err = bufx.BuildImage(e.ctx, r.Files) })
 	return ent.img, ent.err
 }
